@@ -126,7 +126,25 @@ pub struct NewerOptionMatcher {
 
 impl NewerOptionMatcher {
     pub fn new(x_option: &str, y_option: &str, path_to_file: &str) -> Result<Self, Box<dyn Error>> {
-        let metadata = fs::metadata(path_to_file)?;
+        Self::from_metadata(x_option, y_option, fs::metadata(path_to_file)?)
+    }
+
+    /// Like `new`, but the reference file is looked at as the follow mode says (with -P a
+    /// symbolic link is itself the reference, as it is for -newer).
+    pub fn new_following(
+        x_option: &str,
+        y_option: &str,
+        path_to_file: &str,
+        follow: Follow,
+    ) -> Result<Self, Box<dyn Error>> {
+        Self::from_metadata(x_option, y_option, follow.root_metadata(path_to_file)?)
+    }
+
+    fn from_metadata(
+        x_option: &str,
+        y_option: &str,
+        metadata: Metadata,
+    ) -> Result<Self, Box<dyn Error>> {
         let x_option = NewerOptionType::from_str(x_option);
         let y_option = NewerOptionType::from_str(y_option);
         Ok(Self {
